@@ -314,6 +314,36 @@ def check_C18(pid, tier, seed, chk):
         cs = gen.generate(comp, seed, n, nops, opts, first_id=nid)
         nid += len(cs)
         cases += cs
+    if tier != "quick":
+        # soak: churn at full load makes the hash map of a plain LRU rehash (all keys re-hashed inside one `insert`): a panic
+        # injected into that burst must leave the cache as the abort model says (entry absent, nothing lost)
+        import random as _rnd
+        for sk in range(2):
+            r = _rnd.Random(seed * 31 + sk)
+            capn = 112 if sk == 0 else 56
+            lines = ["case %d rawlru cap=%d cb=0 keys=trk hasher=default stride=5 phase=%d" % (nid, capn, sk)]
+            nid += 1
+            cnt, live, nk = 0, [], 1000
+            for k in range(1, capn + 1):
+                cnt += 1
+                lines.append("put %d %d" % (k, k * 100000 + cnt))
+                live.append(k)
+            for _ in range(260):
+                k = live.pop(r.randrange(len(live)))
+                lines.append("remove %d" % k)
+                nk += 1
+                cnt += 1
+                lines.append("put %d %d" % (nk, nk * 100000 + cnt))
+                live.append(nk)
+            r.shuffle(live)
+            for k in live[: (capn * 4) // 5]:
+                lines.append("remove %d" % k)
+            for _ in range(capn // 2):
+                nk += 1
+                cnt += 1
+                lines.append("put %d %d" % (nk, nk * 100000 + cnt))
+            lines.append("end")
+            cases.append(lines)
     chunks = [cases[i::14] for i in range(14)]
     hangs = []
 
@@ -326,7 +356,7 @@ def check_C18(pid, tier, seed, chk):
             guard += 1
             script = "\n".join("\n".join(c) for c in rest) + "\n"
             try:
-                p = subprocess.run([fexe], input=script.encode(), stdout=subprocess.PIPE, stderr=subprocess.PIPE, timeout=240)
+                p = subprocess.run([fexe], input=script.encode(), stdout=subprocess.PIPE, stderr=subprocess.PIPE, timeout=240 if tier == "quick" else 900)
                 txt, rc = p.stdout.decode("utf-8", "replace"), p.returncode
             except subprocess.TimeoutExpired as e:
                 # an operation that does not terminate on a post-panic state: liveness, not memory safety; the case is
